@@ -630,6 +630,10 @@ pub fn hosts_text() -> String {
 pub enum Mode {
     Auth,
     Rec,
+    /// the same two configurations with RUST_LOG=trace, so that every log line
+    /// of the server and the resolver is rendered (small alphabets only)
+    AuthTrace,
+    RecTrace,
 }
 
 impl Mode {
@@ -637,13 +641,29 @@ impl Mode {
         match self {
             Mode::Auth => "authoritative-only",
             Mode::Rec => "recursive+forwarder",
+            Mode::AuthTrace => "authoritative-only, RUST_LOG=trace",
+            Mode::RecTrace => "recursive+forwarder, RUST_LOG=trace",
         }
     }
     fn from_name(s: &str) -> Mode {
-        if s.starts_with("rec") {
-            Mode::Rec
-        } else {
-            Mode::Auth
+        match (s.starts_with("rec"), s.contains("trace")) {
+            (true, false) => Mode::Rec,
+            (true, true) => Mode::RecTrace,
+            (false, false) => Mode::Auth,
+            (false, true) => Mode::AuthTrace,
+        }
+    }
+    /// the configuration without the log level
+    fn base(self) -> Mode {
+        match self {
+            Mode::Auth | Mode::AuthTrace => Mode::Auth,
+            Mode::Rec | Mode::RecTrace => Mode::Rec,
+        }
+    }
+    fn log_level(self) -> &'static str {
+        match self {
+            Mode::Auth | Mode::Rec => "warn",
+            Mode::AuthTrace | Mode::RecTrace => "trace",
         }
     }
 }
@@ -747,9 +767,9 @@ impl World {
             outcome_of(res, metrics.cache_hits > 0 || metrics.nameserver_hits > 0)
         };
         let mut alts: Vec<Outcome> = Vec::new();
-        match mode {
-            Mode::Auth => alts.push(run(false, &SharedCache::new())),
-            Mode::Rec => {
+        match mode.base() {
+            Mode::Auth | Mode::AuthTrace => alts.push(run(false, &SharedCache::new())),
+            Mode::Rec | Mode::RecTrace => {
                 let cache = SharedCache::new();
                 if rd {
                     alts.push(run(true, &cache));
@@ -860,7 +880,7 @@ pub fn reference(world: &World, mode: Mode, msg: &[u8], short_read: bool) -> Exp
             questions: m.questions,
         };
     }
-    let ra = mode == Mode::Rec;
+    let ra = mode.base() == Mode::Rec;
     let nothing = Outcome {
         rcode: 2,
         aa: false,
@@ -2299,9 +2319,9 @@ pub struct Rig {
 
 fn server_args(mode: Mode, dir: &Path, fwd: SocketAddr) -> Vec<String> {
     let mut a: Vec<String> = Vec::new();
-    match mode {
-        Mode::Auth => a.push("--authoritative-only".into()),
-        Mode::Rec => {
+    match mode.base() {
+        Mode::Auth | Mode::AuthTrace => a.push("--authoritative-only".into()),
+        Mode::Rec | Mode::RecTrace => {
             a.push("-f".into());
             a.push(fwd.to_string());
         }
@@ -2325,7 +2345,7 @@ pub fn build_rig(modes: &[Mode]) -> Result<Rig, String> {
     let mut args = BTreeMap::new();
     for &m in modes {
         let a = server_args(m, &dir, fwd.addr);
-        servers.insert(m, Server::start(&a, &[], "warn")?);
+        servers.insert(m, Server::start(&a, &[], m.log_level())?);
         args.insert(m, a);
     }
     Ok(Rig {
@@ -2355,9 +2375,9 @@ fn alive_and_answering(srv: &mut Server) -> Result<(), String> {
 
 /// After a crash: find one message that brings a fresh server down, by halving the list of
 /// suspects (each half is fed to a server that is known to be up).
-fn find_killer(args: &[String], suspects: &[(Transport, Vec<u8>)], budget: Duration) -> Option<(Transport, Vec<u8>, String)> {
+fn find_killer(args: &[String], level: &str, suspects: &[(Transport, Vec<u8>)], budget: Duration) -> Option<(Transport, Vec<u8>, String)> {
     let start = Instant::now();
-    let mut srv = Server::start(args, &[], "warn").ok()?;
+    let mut srv = Server::start(args, &[], level).ok()?;
     let feed = |srv: &mut Server, part: &[(Transport, Vec<u8>)]| -> Result<(), String> {
         let sock = UdpSocket::bind((Ipv4Addr::LOCALHOST, 0)).map_err(|e| e.to_string())?;
         let _ = sock.connect(srv.addr);
@@ -2408,7 +2428,7 @@ fn find_killer(args: &[String], suspects: &[(Transport, Vec<u8>)], budget: Durat
             return None;
         }
         if !srv.alive() || alive_and_answering(&mut srv).is_err() {
-            srv = Server::start(args, &[], "warn").ok()?;
+            srv = Server::start(args, &[], level).ok()?;
         }
         let mid = lo + (hi - lo) / 2;
         match feed(&mut srv, &suspects[lo..mid]) {
@@ -2420,7 +2440,7 @@ fn find_killer(args: &[String], suspects: &[(Transport, Vec<u8>)], budget: Durat
         }
     }
     // confirm on a fresh server
-    let mut fresh = Server::start(args, &[], "warn").ok()?;
+    let mut fresh = Server::start(args, &[], level).ok()?;
     match feed(&mut fresh, &suspects[lo..hi]) {
         Err(w) => Some((suspects[lo].0, suspects[lo].1.clone(), if w.is_empty() { why } else { w })),
         Ok(()) => None,
@@ -2429,7 +2449,7 @@ fn find_killer(args: &[String], suspects: &[(Transport, Vec<u8>)], budget: Durat
 
 pub fn run(ctx: &Ctx) -> i32 {
     let budget = ctx.tier.pick(38.0, 520.0);
-    let mut rig = match build_rig(&[Mode::Auth, Mode::Rec]) {
+    let mut rig = match build_rig(&[Mode::Auth, Mode::Rec, Mode::AuthTrace, Mode::RecTrace]) {
         Ok(r) => r,
         Err(e) => {
             eprintln!("C09: machinery error: {e}");
@@ -2440,6 +2460,7 @@ pub fn run(ctx: &Ctx) -> i32 {
     let tcp = tcp_cases(ctx.tier, 0x2000);
     let pairs = pair_alphabet();
     let modes = [Mode::Auth, Mode::Rec];
+    let all_modes = [Mode::Auth, Mode::Rec, Mode::AuthTrace, Mode::RecTrace];
 
     // work items, largest first
     let mut items: Vec<Item> = Vec::new();
@@ -2458,7 +2479,7 @@ pub fn run(ctx: &Ctx) -> i32 {
         }
     }
     let mut small: Vec<Item> = Vec::new();
-    for &mode in &modes {
+    for &mode in &[Mode::Auth, Mode::Rec, Mode::AuthTrace, Mode::RecTrace] {
         let step = 48usize;
         let mut lo = 0;
         while lo < misc.len() {
@@ -2470,6 +2491,9 @@ pub fn run(ctx: &Ctx) -> i32 {
         while lo < tcp.len() {
             small.push(Item::Tcp { mode, lo, hi: (lo + step).min(tcp.len()) });
             lo += step;
+        }
+        if mode != mode.base() {
+            continue;
         }
         let np = pairs.len() * pairs.len();
         let step = 100usize;
@@ -2499,6 +2523,9 @@ pub fn run(ctx: &Ctx) -> i32 {
         all.push(small[i].clone());
         all.push(small[half + i].clone());
     }
+    if small.len() > 2 * half {
+        all.push(small[2 * half].clone());
+    }
     let fa: Vec<Item> = items.iter().filter(|i| matches!(i, Item::Flags { mode: Mode::Auth, .. })).cloned().collect();
     let fr: Vec<Item> = items.iter().filter(|i| matches!(i, Item::Flags { mode: Mode::Rec, .. })).cloned().collect();
     let (mut i, mut j) = (0, 0);
@@ -2523,9 +2550,9 @@ pub fn run(ctx: &Ctx) -> i32 {
         tcp: &tcp,
         pairs: &pairs,
         deadline: ctx.start + Duration::from_secs_f64(budget),
-        sems: modes.iter().map(|m| (*m, Sem::new(128))).collect(),
+        sems: all_modes.iter().map(|m| (*m, Sem::new(128))).collect(),
         window: 24,
-        down: modes.iter().map(|m| (*m, AtomicBool::new(false))).collect(),
+        down: all_modes.iter().map(|m| (*m, AtomicBool::new(false))).collect(),
     };
     let next = std::sync::atomic::AtomicUsize::new(0);
     let results: Mutex<Vec<(usize, ItemResult)>> = Mutex::new(Vec::new());
@@ -2597,7 +2624,7 @@ pub fn run(ctx: &Ctx) -> i32 {
 
     // liveness at the end (and the search for the killer if a server went down)
     let mut down: Vec<(Mode, String, Vec<(Transport, Vec<u8>)>)> = Vec::new();
-    for &mode in &modes {
+    for &mode in &all_modes {
         let verdict = alive_and_answering(rig.servers.get_mut(&mode).unwrap());
         if let Err(why) = verdict {
             down.push((mode, why, suspects.remove(&mode).unwrap_or_default()));
@@ -2617,7 +2644,7 @@ pub fn run(ctx: &Ctx) -> i32 {
             let args = &rig.args[mode];
             let sink = &sink;
             s.spawn(move || {
-                let killer = find_killer(args, sus, killer_budget);
+                let killer = find_killer(args, mode.log_level(), sus, killer_budget);
                 let (summary, replay) = match killer {
                     Some((t, m, why2)) => (
                         format!("[{}] server down after one {:?} message ({} octets: {}...): {why2}", mode.name(), t, m.len(), hex(&m[..m.len().min(40)])),
